@@ -13,6 +13,7 @@ class HttpBackend:
         self.sock.bind(("127.0.0.1", 0)); self.sock.listen(64)
         self.port = self.sock.getsockname()[1]
         self.scripts = {}; self.requests = []; self.lock = threading.Lock(); self.stop_flag = False
+        self.early = set()          # script ids answered right after the request head, without reading the body
         self.th = threading.Thread(target=self._accept, daemon=True); self.th.start()
 
     def script(self, sid, segments, end="close"):
@@ -36,6 +37,14 @@ class HttpBackend:
                     if not d: return
                     buf += d
                 head, _, rest = buf.partition(b"\r\n\r\n")
+                em = re.search(rb"id=(\d+)", head.split(b"\r\n", 1)[0])
+                if em and int(em.group(1)) in self.early:
+                    segs, end = self.scripts.get(int(em.group(1)), ([(b"HTTP/1.1 200 OK\r\nContent-Length: 2\r\n\r\nok", 0)], "close"))
+                    for data, delay in segs:
+                        if delay: time.sleep(delay)
+                        c.sendall(data)
+                    time.sleep(0.3)      # keep the socket open a little: the response, not a reset, reaches lighttpd first
+                    return
                 m = re.search(rb"(?im)^content-length:[ \t]*(\d+)", head)
                 te = re.search(rb"(?im)^transfer-encoding:[ \t]*chunked", head)
                 body = b""
